@@ -236,6 +236,47 @@ fn run_gated(tracer: &Tracer, rng: &mut StdRng, scenario: &str, tag: Value) {
         }
     }
     let realised = st.0.lock().unwrap().parked;
+    if scenario == "wait_with_intruder" {
+        // the user thread waits for the (parked) merge inside wait_merging_threads while another
+        // thread tries to create a writer through a second Index instance: the lock must hold
+        let dir2 = w.dir.clone();
+        let tr = tracer.clone();
+        let stop = Arc::new(std::sync::atomic::AtomicBool::new(false));
+        let stop2 = stop.clone();
+        let st3 = st.clone();
+        let intruder = std::thread::Builder::new().name("intruder".into()).spawn(move || {
+            let index2 = match vh::simdir::quietly(|| Index::open(dir2.clone())) {
+                Ok(i) => i,
+                Err(_) => return,
+            };
+            let mut attempts = 0;
+            while !stop2.load(std::sync::atomic::Ordering::SeqCst) && attempts < 40 {
+                attempts += 1;
+                let r: tantivy::Result<tantivy::IndexWriter> = index2.writer_with_num_threads(1, 15_000_000);
+                let ok = r.is_ok();
+                tr.emit(json!({"ev":"intruder_create","ok":ok,"attempt":attempts}));
+                drop(r);
+                if ok {
+                    break;
+                }
+                std::thread::sleep(Duration::from_millis(5));
+            }
+            // let the merge go on
+            let (m, cv) = &*st3;
+            m.lock().unwrap().release = true;
+            cv.notify_all();
+        }).unwrap();
+        drop(fut);
+        w.exec(&json!({"op":"wait_merges"}));
+        stop.store(true, std::sync::atomic::Ordering::SeqCst);
+        let _ = intruder.join();
+        w.dir.set_gate(None);
+        tracer.emit(json!({"ev":"schedule","name":"writer creation attempts during wait_merging_threads with a parked merge","realised":realised}));
+        w.exec(&json!({"op":"observe"}));
+        tantivy::verif::set_sink(None);
+        tracer.emit(json!({"ev":"end","listing":w.dir.listing(),"locks":w.dir.lock_files()}));
+        return;
+    }
     match scenario {
         "delete_commit" => {
             w.exec(&json!({"op":"del","pred":{"k":"term","t":"a"}}));
@@ -293,7 +334,7 @@ fn main() {
             }
         }
         "gated" => {
-            let scen = ["delete_commit", "rollback", "delete_all_commit", "two_commits", "fresh_writer_delete"];
+            let scen = ["delete_commit", "rollback", "delete_all_commit", "two_commits", "fresh_writer_delete", "wait_with_intruder"];
             for r in 0..runs {
                 let s = scen[(r as usize) % scen.len()];
                 run_gated(&tracer, &mut rng, s, json!({"seed":seed,"run":r,"scenario":s}));
